@@ -427,8 +427,8 @@ def asan_key(reply):
 def gen_json_consts(ctx):
     """T1 for this area: translators/json_probe.c -> coq/Generated/JsonConsts.v ; returns dict."""
     exe = os.path.join(ctx.bdir, 'json_probe')
-    ctx.cc([os.path.join(ROOT, 'translators', 'json_probe.c')] + [os.path.join(lib.REPO, 'src/runtime', x) for x in ('json_parser.c', 'builder.c', 'emitter.c', 'refmap.c')],
-           exe, opt='-O1')
+    ctx.cc([os.path.join(ROOT, 'translators', 'json_probe.c')] + [os.path.join(lib.REPO, 'src/runtime', x) for x in ('builder.c', 'emitter.c', 'refmap.c')],
+           exe, opt='-O1', incs=['-I%s/src/runtime' % lib.REPO])
     rc, out, err = lib.sh2([exe])
     if rc != 0: raise lib.CheckError('json_probe failed: ' + err)
     if ctx.write_generated('Generated/JsonConsts.v', out):
